@@ -2,7 +2,7 @@
    Statements only; each is closed by [exact] of a lemma proved in coq/Rpc.
    The machine is coq/Rpc/Rpc.v ([step], one handler per event, [cfg_fixed] = the code after the
    repairs); [Panic] is a Go panic, [Stuck] a handler blocked for ever. *)
-From CV Require Import Rpc.Rpc Rpc.RpcSpec Rpc.RpcProofs Rpc.RpcInv Rpc.RpcResp Rpc.RpcRefuted.
+From CV Require Import Rpc.Rpc Rpc.RpcSpec Rpc.RpcProofs Rpc.RpcInv Rpc.RpcResp Rpc.RpcLocal Rpc.RpcHist Rpc.RpcQids Rpc.RpcCalls Rpc.RpcRefuted.
 Open Scope Z_scope.
 
 (* handlers_total: for EVERY list of events -- peer messages of all kinds with arbitrary field
@@ -49,19 +49,44 @@ Print Assumptions C08_shutdown_total.
    theorems hold on them) *)
 Theorem C08_F15_refuted : outcome without15 h15 = W_F15 /\ outcome cfg_fixed h15 = 0.
 Proof. exact F15_refuted. Qed.
+Print Assumptions C08_F15_refuted.
 Theorem C08_F16_refuted : outcome without16 h16 = W_F16 /\ outcome cfg_fixed h16 = 0.
 Proof. exact F16_refuted. Qed.
+Print Assumptions C08_F16_refuted.
 Theorem C08_F17_refuted : outcome without17 h17 = W_F17 /\ outcome cfg_fixed h17 = 0.
 Proof. exact F17_refuted. Qed.
+Print Assumptions C08_F17_refuted.
 Theorem C08_F21_refuted : outcome without21 h21 = - W_F21 /\ outcome cfg_fixed h21 = 0.
 Proof. exact F21_refuted. Qed.
+Print Assumptions C08_F21_refuted.
 Theorem C08_F22_refuted : outcome without22 h22 = W_F22 /\ outcome cfg_fixed h22 = 0.
 Proof. exact F22_refuted. Qed.
+Print Assumptions C08_F22_refuted.
 Theorem C08_F24_refuted : outcome without24 h24 = W_F24 /\ outcome cfg_fixed h24 = 0.
 Proof. exact F24_refuted. Qed.
+Print Assumptions C08_F24_refuted.
 Theorem C08_F25_refuted : outcome without25 h25 = W_F25 /\ outcome without25 [MNullCall] = W_F25 /\
                           outcome cfg_fixed h25 = 0 /\ outcome cfg_fixed [MNullCall] = 0.
 Proof. exact F25_refuted. Qed.
+Print Assumptions C08_F25_refuted.
 (* not repaired (known finding): outside [env_ok] the receive loop can block for ever *)
 Theorem C08_F26_witness : outcome cfg_fixed h26 = - W_F26.
 Proof. exact F26_witness. Qed.
+Print Assumptions C08_F26_witness.
+
+(* "local callers get errors rather than hangs" (the machine's side): every local call has exactly
+   one resolution-or-holder at every point of every history, and once the connection is shut down
+   no question holds a call any more -- whatever the peer sent, every call made through the
+   connection has been resolved (class 3, disconnected, at the latest).  Same statements as
+   C06_call_resolves_once / C06_shut_calls_resolved. *)
+Theorem C08_local_calls_resolve : forall boot evs s out, work evs < 4294967295 -> run_o (init boot) evs [] = Ok (s, out) ->
+  forall n, 0 <= n ->
+    (n < s_ncall s -> (cnt (is_res n) out + hold n (aux_of s) = 1)%nat) /\
+    (s_ncall s <= n -> cnt (is_res n) out = 0%nat /\ hold n (aux_of s) = 0%nat) /\
+    (cnt (is_res n) out <= 1)%nat.
+Proof. exact call_resolves_once. Qed.
+Print Assumptions C08_local_calls_resolve.
+Theorem C08_shut_calls_resolved : forall boot evs s out, work evs < 4294967295 -> run_o (init boot) evs [] = Ok (s, out) ->
+  s_shut s = true -> forall n, HQ n (s_qs s) = 0%nat.
+Proof. exact shut_calls_resolved. Qed.
+Print Assumptions C08_shut_calls_resolved.
